@@ -28,6 +28,7 @@ import re
 from .. import AnalysisError
 from ..callgraph import DIRECT
 from ..flow import Flow, Out
+from ..prog import _assigned_names
 from ..report import Report
 from ..util import where, mwhere, norm, call_name
 from ..variants import V
@@ -463,6 +464,9 @@ class Model:
             if (self.prog.resolve_expr(p.func, m, r.func) or '').startswith('external:'):
                 r.op, r.method, r.site = 'read', p.func.id, p
                 return
+        if isinstance(p, ast.Call) and cur in p.args and isinstance(p.func, ast.Attribute) and p.func.attr in GROW_SEQ:
+            r.op, r.method, r.site = 'read', 'source-of-' + p.func.attr, p  # elements copied into another collection
+            return
         if isinstance(p, (ast.For, ast.AsyncFor, ast.comprehension)) and p.iter is cur:
             r.op, r.method = 'read', '__iter__'
             return
@@ -578,7 +582,8 @@ class Prov:
         self.selfkind = 'S' if (func.cls is not None and func.cls.qname in model.hier and 'self' in func.params()[:1]) else 'K'
         self.env = {}
         self.alias = {}  # name -> set of root container names it may alias a part of
-        self.bound = set()
+        # every local name starts at bottom ('E'); bindings the passes do not understand make it 'K'
+        self.bound = set(_assigned_names(func)) - set(func.params())
         for _ in range(12):
             before = dict(self.env)
             self._pass()
@@ -626,12 +631,38 @@ class Prov:
                 self._target(el.value if isinstance(el, ast.Starred) else el, 'K')
 
     def _pass(self):
+        # bindings first, growth second: the shape of a container (list / dict) must be known before it is grown
         for n in self.f.own_nodes():
+            self._bindings(n)
+        for n in self.f.own_nodes():
+            self._growth(n)
+
+    def _growth(self, n):
+        if isinstance(n, ast.Assign):
+            for t in n.targets:
+                if isinstance(t, ast.Subscript):
+                    self._grow(t.value, self.kind(n.value), self.kind(t.slice))
+        elif isinstance(n, ast.AugAssign) and not isinstance(n.target, ast.Name):
+            self._grow(n.target, kseq(self.kind(n.value)))
+        elif isinstance(n, ast.Call) and isinstance(n.func, ast.Attribute) and n.func.attr in GROW | {'setdefault'}:
+            base = n.func.value
+            if isinstance(base, (ast.Name, ast.Attribute)) and self.prog.resolve_in(base, self.f) == self.source:
+                return  # growth of the source itself is judged by the rule
+            if n.func.attr == 'setdefault' and len(n.args) == 2:
+                self._grow(base, self.kind(n.args[1]), self.kind(n.args[0]))
+            elif n.func.attr == 'insert' and len(n.args) == 2:
+                self._grow(base, self.kind(n.args[1]))
+            elif n.args:
+                k = self.kind(n.args[0])
+                self._grow(base, kseq(k) if n.func.attr in GROW_SEQ else k)
+
+    def _bindings(self, n):
+        if True:
             if isinstance(n, ast.Assign):
                 k = self.kind(n.value)
                 for t in n.targets:
                     if isinstance(t, ast.Subscript):
-                        self._grow(t.value, k, self.kind(t.slice))
+                        pass
                     else:
                         self._target(t, k)
                         if isinstance(t, ast.Name):
@@ -643,8 +674,6 @@ class Prov:
             elif isinstance(n, ast.AugAssign):
                 if isinstance(n.target, ast.Name):
                     self._bind(n.target.id, kseq(self.kind(n.value)))
-                else:
-                    self._grow(n.target, kseq(self.kind(n.value)))
             elif isinstance(n, (ast.For, ast.AsyncFor, ast.comprehension)):
                 self._target(n.target, kseq(self.kind(n.iter)))
             elif isinstance(n, ast.NamedExpr):
@@ -653,21 +682,19 @@ class Prov:
                 self._target(n.optional_vars, 'K')
             elif isinstance(n, ast.ExceptHandler) and n.name:
                 self._bind(n.name, 'K')
+            elif isinstance(n, (ast.FunctionDef, ast.AsyncFunctionDef, ast.ClassDef)):
+                self._bind(n.name, 'K')
+            elif isinstance(n, (ast.Import, ast.ImportFrom)):
+                for a in n.names:
+                    self._bind((a.asname or a.name).split('.')[0], 'K')
+            elif isinstance(n, ast.Delete):
+                for t in n.targets:
+                    if isinstance(t, ast.Name):
+                        self._bind(t.id, 'K')
             elif isinstance(n, ast.Lambda):
                 a = n.args
                 for x in a.posonlyargs + a.args + a.kwonlyargs:
                     self._bind(x.arg, 'K')
-            elif isinstance(n, ast.Call) and isinstance(n.func, ast.Attribute) and n.func.attr in GROW | {'setdefault'}:
-                base = n.func.value
-                if isinstance(base, (ast.Name, ast.Attribute)) and self.prog.resolve_in(base, self.f) == self.source:
-                    continue  # growth of the source itself is judged by the rule
-                if n.func.attr == 'setdefault' and len(n.args) == 2:
-                    self._grow(base, self.kind(n.args[1]), self.kind(n.args[0]))
-                elif n.func.attr == 'insert' and len(n.args) == 2:
-                    self._grow(base, self.kind(n.args[1]))
-                elif n.args:
-                    k = self.kind(n.args[0])
-                    self._grow(base, kseq(k) if n.func.attr in GROW_SEQ else k)
 
     # -------------------------------------------------------------- kind
     def kind(self, e):
